@@ -309,7 +309,8 @@ def _c08_specs(tier):
                     ('c08-maxhmmpf3-core-len2', ['--set', 'core', '--len', '2', '--maxhmmpf', '3'], 4),
                     ('c08-nofiller-proto-len3', ['--set', 'proto', '--len', '3', '--cfg', 'fsgusefiller=no'], 4),
                     ('c08-boot-nogram-len3', ['--set', 'boot', '--len', '3', '--nogram', '1'], 10)]
-    return [('c08-all-len2', ['--set', 'all', '--len', '2']), ('c08-all-len3', ['--set', 'all', '--len', '3']), ('c08-core-len3', ['--set', 'core', '--len', '3']),
+    # (all operations to length 3 would be 100000 histories with a seven-utterance probe each: beyond the budget; C09 and C16 go there)
+    return [('c08-all-len2', ['--set', 'all', '--len', '2']), ('c08-core-len3', ['--set', 'core', '--len', '3']), ('c08-proto-len5', ['--set', 'proto', '--len', '5']),
             ('c08-two-core-len3', ['--set', 'core', '--len', '3', '--two', '1'])] + [
                 ('c08-synth-%s-core-len2' % sc, ['--set', 'core', '--len', '2', '--synth', sc], 2) for sc in ('semi', 'ms')] + [
                 ('c08-maxhmmpf5-proto-len4', ['--set', 'proto', '--len', '4', '--maxhmmpf', '5'], 8),
@@ -526,7 +527,7 @@ CHECKS = {
         budget_s={'quick': 600, 'thorough': 5400},
         coverage=ex_cov,
         rule='every API history up to length 1 over all 47 operations, 2 over the 18-operation core, 4 over the 7-operation protocol core, 3 '
-             'over the boot set from a grammar-less decoder (thorough: 2-3 / 3 / 4), also on synthetic scorers, with a cap on active HMMs '
+             'over the boot set from a grammar-less decoder (thorough: 2 / 3 / 5 / 4), also on synthetic scorers, with a cap on active HMMs '
              '(maxhmmpf 3/5/10) and without filler transitions; followed by a probe in TWO orders, each on its own copy of the process '
              '(fork) and compared with the same order on a fresh decoder: (1) whole-utterance decodes first, WITHOUT any reset (an excerpt '
              'with the length of the history utterance but other content, 1.9 s of the recording, another excerpt), then streaming in '
